@@ -101,9 +101,53 @@ func c13GoLit(name string, args []cty.Value) string {
 	return "stdlib." + name + "(" + strings.Join(ws, ", ") + ")"
 }
 
+// c13CollidingSet: does v hold (at any depth) a known set with two members in one hash bucket?
+func c13CollidingSet(v cty.Value) bool {
+	v, _ = v.Unmark()
+	if !v.IsKnown() || v.IsNull() {
+		return false
+	}
+	ty := v.Type()
+	if !(ty.IsCollectionType() || ty.IsTupleType() || ty.IsObjectType()) {
+		return false
+	}
+	if ty.IsSetType() {
+		seen := map[int]bool{}
+		for it := v.ElementIterator(); it.Next(); {
+			_, m := it.Element()
+			mu, _ := m.UnmarkDeep()
+			h := 0
+			if p, _ := try(func() { h = mu.Hash() }); p {
+				continue
+			}
+			if seen[h] {
+				return true
+			}
+			seen[h] = true
+		}
+	}
+	for it := v.ElementIterator(); it.Next(); {
+		_, m := it.Element()
+		if c13CollidingSet(m) {
+			return true
+		}
+	}
+	return false
+}
+
 // c13Case calls the real function, records the correspondence case and returns the result.
 func c13Case(ctx *Ctx, name string, args []cty.Value, zeroStep bool) c13Res {
 	r := c13Invoke(name, args)
+	for _, a := range args {
+		// Value.UnmarkDeep (applied by the call protocol to a marked argument) REBUILDS every set it
+		// walks through, re-inserting the members in iteration order; when two unequal members share a
+		// hash bucket their order inside the bucket can change.  The shared marks model keeps the
+		// payload as it is, so these cases are counted and left to the marks slice (C04).
+		if a.ContainsMarked() && c13CollidingSet(a) {
+			ctx.Tag("skipped:unmarkdeep-rebuilds-colliding-set")
+			return r
+		}
+	}
 	orc := c13Oracle(name, args, zeroStep)
 	ctx.Add("std.call", r.wire(), name, c13EncArgs(args), "("+strings.Join(orc, " ")+")")
 	ctx.Tag("fn:" + name + ":" + r.class)
